@@ -25,7 +25,8 @@ CONSTANTS
   HOps = {"read", "ret"}
   ReadLens = {1, 3}
   WriteLens = {1}
-  N400 = 1
+  N400C = 1
+  N400T = 2
   MaxSteps = @STEPS@
   MaxData = 3
   MaxHdrs = 2
